@@ -26,6 +26,22 @@ Fixpoint keep_loop (is_keep : W -> bool) (fuel : nat) (data : list J) (r w : nat
       end
   end.
 
+(* the wrapped elements the predicate is called on, in call order (the same loop, instrumented) *)
+Fixpoint keep_loop_calls (is_keep : W -> bool) (fuel : nat) (data : list J) (r w : nat) : list W :=
+  match fuel with
+  | O => []
+  | S f =>
+      match nth_error data r with
+      | None => []
+      | Some x =>
+          let wx := to_wrapped x in
+          wx :: (if is_keep wx then keep_loop_calls is_keep f (set_nth data w (to_json wx)) (S r) (S w)
+                 else keep_loop_calls is_keep f data (S r) w)
+      end
+  end.
+Definition keep_calls (is_keep : W -> bool) (data : list J) : list W :=
+  keep_loop_calls is_keep (S (List.length data)) data 0 0.
+
 (* then: for index in range(last_index + 1, original_length): data.pop() *)
 Definition keep_all (is_keep : W -> bool) (data : list J) : list J :=
   let '(d, w) := keep_loop is_keep (S (List.length data)) data 0 0 in firstn w d.
